@@ -1024,9 +1024,98 @@ def sub_case(ctx, k, cid):
                           {"exc": repr(e)}, cid)
 
 
+def undefined_case(ctx, k, cid):
+    """Similarity matrices with undefined (NaN) entries - what every
+    correlation-type subclass gets for a constant series (a masked cell).
+    Every pair with a defined similarity follows the rule on the absolute
+    value; an undefined similarity exceeds no threshold."""
+    from pyunicorn.climate import ClimateNetwork
+    rng = ctx.rng("undef", k)
+    n = int(rng.integers(3, 10))
+    dead = rng.permutation(n)[:int(rng.integers(1, max(2, n - 2)))]
+    if k % 2 == 0:
+        cname = "ClimateNetwork"
+        lat, lon = clustered_latlon(rng, n)
+        S = similarity(rng, n, "sym-max").astype(np.float64)
+        if rng.random() < 0.3:
+            a, b = int(dead[0]), int((dead[0] + 1) % n)      # one pair only
+            S[a, b] = S[b, a] = np.nan
+        else:
+            S[dead, :] = np.nan
+            S[:, dead] = np.nan
+        nl = bool(rng.random() < 0.3)
+        t0 = grid_threshold(rng, np.nan_to_num(np.abs(S.astype(np.float32))))
+        ok, net = ctx.call(ClimateNetwork, go.geogrid(lat, lon), S.copy(),
+                           threshold=t0, non_local=nl, silence_level=3)
+        want = np.abs(S.astype(np.float32))
+    else:
+        cname = str(rng.choice(["TsonisClimateNetwork",
+                                "SpearmanClimateNetwork"]))
+        obs, lat, lon = make_data(rng, n, int(rng.choice([24, 36, 48])))
+        obs[:, dead] = rng.choice([0.0, 1.5, -3.0])
+        nl = False
+        t0 = float(rng.choice([0.1, 0.3, 0.5, 0.7]))
+        ok, net = sub_build(ctx, rng, cname, obs, lat, lon, {}, threshold=t0,
+                            non_local=nl)
+        want = None
+    sig = f"{cname}:undefined-entries"
+    if not ok:
+        ctx.violation(f"{sig}:__init__:raises:{type(net).__name__}",
+                      {"exc": repr(net)}, cid)
+        return
+    ctx.count("undefined_similarity_cases")
+    sim = np.array(net.similarity_measure(), dtype=np.float64)
+    fin = np.isfinite(sim)
+    if want is not None and not np.array_equal(sim, want.astype(np.float64),
+                                               equal_nan=True):
+        ctx.violation(f"{sig}:similarity_measure-not-the-absolute-value",
+                      {"given": S, "returned": sim}, cid)
+        return
+    if (sim[fin] < 0).any():
+        ctx.violation(f"{sig}:similarity_measure:negative-entries",
+                      {"min": float(sim[fin].min()), "similarity": sim}, cid)
+        return
+    if want is None and fin.all():
+        ctx.count("undefined_similarity_all_defined")
+    W = damping(np.asarray(net.grid.angular_distance(), dtype=np.float64)) \
+        if nl else None
+    ths = [t0] + [float(x) for x in rng.choice(
+        [0.0, 0.05, 0.2, 0.4, 0.6, 0.9], 2, replace=False)]
+    for step, t in enumerate(ths):
+        if step:
+            ok, e = ctx.call(net.set_threshold, t)
+            if not ok:
+                ctx.violation(f"{sig}:set_threshold:raises:"
+                              f"{type(e).__name__}", {"exc": repr(e)}, cid)
+                return
+        A, dec = rule(np.where(fin, sim, -1.0), t, W)
+        A &= fin
+        got = np.asarray(net.adjacency) != 0
+        ctx.evals()
+        ctx.count("undefined_similarity_states")
+        if bool(A.any()):
+            ctx.nontrivial(("undef", cname, cid, step))
+        if ((got != A) & dec).any():
+            ctx.violation(f"{sig}:rule", {
+                "similarity": sim, "threshold": t, "non_local": nl,
+                "step": step, "library": got.astype(int),
+                "expected": A.astype(int)}, cid)
+            return
+        if int(net.n_links) != int(got.sum()) // 2:
+            ctx.violation(f"{sig}:n_links-inconsistent",
+                          {"n_links": int(net.n_links),
+                           "adjacency_sum": int(got.sum())}, cid)
+            return
+
+
 def run(ctx):
     import warnings
     warnings.simplefilter("ignore")
+    for k in range(400 if ctx.thorough else 60):
+        cid = f"undef:{k}"
+        if ctx.mine(k) and ctx.want(cid):
+            with ctx.guard(60):
+                undefined_case(ctx, k, cid)
     nb = 90000 if ctx.thorough else 2400
     ns = 36000 if ctx.thorough else 1000
     total = ctx.time_left()
